@@ -38,7 +38,7 @@ RULE = ("well-formed templates from a grammar-directed generator (text runs incl
         "triple-quoted strings and long trailing whitespace, def/block/call/page/include/namespace/inherit/text tags "
         "single- and multi-line with attribute values spanning lines, ## and <%doc> comments; LF or CRLF; leading blank "
         "lines) into which exactly ONE fault is planted at every candidate site: a Python syntax error at every binary "
-        "operator of every code line of every construct (10 construct kinds), and 30 structural fault classes at every "
+        "operator of every code line of every construct (10 construct kinds), and 31 structural fault classes at every "
         "tag / control block / line gap; a case is distinct by (source text, fault); non-trivial = the fault is not on "
         "line 1 column 1")
 ASSUMPTIONS = [
